@@ -1024,7 +1024,7 @@ def Aligned (r : Req) : Prop :=
 
 /-- a cached extent holds exactly the downstream's data on its (aligned) range -/
 def GoodExtent (D : Down) (step : Int) (e : Extent) : Prop :=
-  0 ≤ e.start ∧ e.start ≤ e.stop ∧ e.start % step = 0 ∧ e.stop % step = 0 ∧ Exact D step e.start e.stop e.resp
+  0 ≤ e.start ∧ e.start % step = 0 ∧ e.stop % step = 0 ∧ Exact D step e.start e.stop e.resp
 
 /-- the cached parts of a partition with their ranges -/
 def PiecesOK (D : Down) (req : Req) (ps : List Piece) : Prop :=
@@ -1062,7 +1062,7 @@ theorem partitionLoop_spec (cfg : Cfg) (D : Down) (req : Req) (hreq : Aligned re
   | [], _, start, rs, ps, hinv => ⟨start, rs, ps, rfl, hinv⟩
   | e :: es, hgood, start, rs, ps, hinv => by
     have hes : ∀ e' ∈ es, GoodExtent D req.step e' := fun e' he' => hgood e' (List.mem_cons_of_mem _ he')
-    obtain ⟨he0, hele, hea, heb, hex⟩ := hgood e (by simp)
+    obtain ⟨he0, hea, heb, hex⟩ := hgood e (by simp)
     obtain ⟨hstep, hr0, hrle, hra, hrb⟩ := hreq
     unfold partitionLoop
     by_cases h1 : e.stop < start ∨ e.start > req.stop
@@ -1226,9 +1226,9 @@ theorem partition_spec (cfg : Cfg) (D : Down) (hD : D.Sorted) (req : Req) (hreq 
 
 /-- **a cache hit answers exactly**: with good extents under the request's key, `handleHit`
     (any-step mode, repaired `minTime`) returns the downstream's direct answer -/
-theorem handleHit_resp (g : Bool) (D : Down) (hD : D.Sorted) (req : Req) (hreq : Aligned req)
+theorem handleHit_resp (g : Bool) (env : Env) (D : Down) (hD : D.Sorted) (req : Req) (hreq : Aligned req)
     (exts : List Extent) (hgood : ∀ e ∈ exts, GoodExtent D req.step e) :
-    (handleHit ⟨true, g⟩ D req exts false).1 = evalD D req.start req.stop req.step := by
+    (handleHit ⟨true, g⟩ env D req exts false).1 = evalD D req.start req.stop req.step := by
   obtain ⟨rs, ps, hpart, hex, hin, hcov, _⟩ := partition_spec ⟨true, g⟩ D hD req hreq exts hgood
   have hmerge := merge_exact hex hin hcov
   have hdirect := evalD_exact D hD req.step req.start req.stop hreq.1 hreq.2.2.2.1
@@ -1316,11 +1316,11 @@ theorem mergeExtentsLoop_good (g : Bool) (D : Down) (step : Int) (hs : 0 < step)
       · rw [if_pos h2]
         exact mergeExtentsLoop_good g D step hs es acc hacc hes' (fun e' h => hle e' (List.mem_cons_of_mem _ h)) hs'.2
       · rw [if_neg h2]
-        obtain ⟨a0, a1, a2, a3, a4⟩ := hacc
-        obtain ⟨e0, e1, e2, e3, e4⟩ := he
+        obtain ⟨a0, a2, a3, a4⟩ := hacc
+        obtain ⟨e0, e2, e3, e4⟩ := he
         have hae := hle e (by simp)
         have hnew : GoodExtent D step ⟨acc.start, e.stop, mergeResponse true [acc.resp, e.resp]⟩ := by
-          refine ⟨a0, by simp; omega, a2, e3, ?_⟩
+          refine ⟨a0, a2, e3, ?_⟩
           have := merge_exact (D := D) (step := step) (A := acc.start) (B := e.stop)
             (ps := [⟨acc.start, acc.stop, acc.resp⟩, ⟨e.start, e.stop, e.resp⟩])
             (by intro p hp; simp at hp; rcases hp with rfl | rfl; exact ⟨a0, a4⟩; exact ⟨e0, e4⟩)
@@ -1359,9 +1359,9 @@ theorem mergeExtents_good (g : Bool) (D : Down) (step : Int) (hs : 0 < step) (al
     exact mergeExtentsLoop_good g D step hs xs x (h x (hperm.subset (by simp)))
       (fun e he => h e (hperm.subset (List.mem_cons_of_mem _ he))) hp.1 hp.2
 
-theorem handleHit_extents (g : Bool) (D : Down) (hD : D.Sorted) (req : Req) (hreq : Aligned req)
+theorem handleHit_extents (g : Bool) (env : Env) (D : Down) (hD : D.Sorted) (req : Req) (hreq : Aligned req)
     (exts : List Extent) (hgood : ∀ e ∈ exts, GoodExtent D req.step e) :
-    ∀ ex, (handleHit ⟨true, g⟩ D req exts false).2 = some ex → ∀ e ∈ ex, GoodExtent D req.step e := by
+    ∀ ex, (handleHit ⟨true, g⟩ env D req exts false).2 = some ex → ∀ e ∈ ex, GoodExtent D req.step e := by
   obtain ⟨rs, ps, hpart, _, _, _, hrs⟩ := partition_spec ⟨true, g⟩ D hD req hreq exts hgood
   intro ex hex
   unfold handleHit at hex
@@ -1375,13 +1375,34 @@ theorem handleHit_extents (g : Bool) (D : Down) (hD : D.Sorted) (req : Req) (hre
     intro e he
     rcases List.mem_append.mp he with he | he
     · exact hgood e he
-    · simp only [List.map_map, List.mem_map, Function.comp_def] at he
-      obtain ⟨r, hr, rfl⟩ := he
-      obtain ⟨a1, a2, a3, _, _, a6, a7⟩ := hrs r hr
-      refine ⟨a2, a6, a3, a7, ?_⟩
+    · simp only [List.mem_map, List.mem_filter] at he
+      obtain ⟨p, ⟨hp, _⟩, rfl⟩ := he
+      obtain ⟨r, hr, rfl⟩ := hp
+      obtain ⟨a1, a2, a3, _, _, _, a7⟩ := hrs r hr
+      refine ⟨a2, a3, a7, ?_⟩
       simp only
       rw [a1]
       exact evalD_exact D hD req.step r.start r.stop hreq.1 a3
+
+/-- `filterRecentExtents` keeps extents good: a truncated extent holds exactly the data of the
+    truncated range -/
+theorem filterRecent_good (env : Env) (D : Down) (step : Int) (hs : 0 < step) (exts : List Extent)
+    (h : ∀ e ∈ exts, GoodExtent D step e) : ∀ e ∈ filterRecent env step exts, GoodExtent D step e := by
+  intro e he
+  unfold filterRecent at he
+  simp only [List.mem_map] at he
+  obtain ⟨e0, he0, rfl⟩ := he
+  obtain ⟨a0, a1, a2, a3⟩ := h e0 he0
+  by_cases hgt : e0.stop > env.mct.tdiv step * step
+  · simp only [hgt, if_true]
+    refine ⟨a0, a1, by simp, ?_⟩
+    have := extract_exact a3 e0.start (env.mct.tdiv step * step)
+    have e1 : max e0.start e0.start = e0.start := by omega
+    have e2 : min e0.stop (env.mct.tdiv step * step) = env.mct.tdiv step * step := by omega
+    rw [e1, e2] at this
+    exact this
+  · simp only [hgt, if_false]
+    exact ⟨a0, a1, a2, a3⟩
 
 /-- every key of the cache is for the one step `step`, every extent is good -/
 def GoodCache (D : Down) (step : Int) (c : Cache) : Prop :=
@@ -1446,26 +1467,29 @@ theorem lowerSteps_lt {step s : Int} (h : s ∈ lowerSteps step) : s < step := b
   · simp at h
 
 /-- **one (sub-)request through the cache** when every cached key is for the request's own step:
-    the answer is the downstream's direct answer and the cache stays good -/
-theorem doReq_spec (g : Bool) (D : Down) (hD : D.Sorted) (splitMs : Int) (c : Cache) (req : Req) (hreq : Aligned req)
-    (hc : GoodCache D req.step c) :
-    (doReq ⟨true, g⟩ D splitMs c req).1 = evalD D req.start req.stop req.step ∧
-    GoodCache D req.step (doReq ⟨true, g⟩ D splitMs c req).2 := by
+    the answer is the downstream's direct answer and the cache stays good — whatever the
+    freshness cut-off and the cacheability of the responses -/
+theorem doReq_spec (g : Bool) (env : Env) (D : Down) (hD : D.Sorted) (splitMs : Int) (c : Cache) (req : Req)
+    (hreq : Aligned req) (hc : GoodCache D req.step c) :
+    (doReq ⟨true, g⟩ env D splitMs c req).1 = evalD D req.start req.stop req.step ∧
+    GoodCache D req.step (doReq ⟨true, g⟩ env D splitMs c req).2 := by
   unfold doReq
-  simp only
+  by_cases hfresh : req.start > env.mct
+  · simp only [hfresh, if_true]; exact ⟨trivial, hc⟩
+  simp only [hfresh, if_false]
   cases hget : cacheGet c ⟨req.step, splitMs, req.start.tdiv splitMs⟩ with
   | some exts =>
     have hgood : ∀ e ∈ exts, GoodExtent D req.step e := (hc _ (cacheGet_mem hget)).2
-    have hresp := handleHit_resp g D hD req hreq exts hgood
-    have hext := handleHit_extents g D hD req hreq exts hgood
+    have hresp := handleHit_resp g env D hD req hreq exts hgood
+    have hext := handleHit_extents g env D hD req hreq exts hgood
     simp only
-    cases hh : handleHit ⟨true, g⟩ D req exts false with
+    cases hh : handleHit ⟨true, g⟩ env D req exts false with
     | mk resp oex =>
       rw [hh] at hresp hext
       simp only at hresp hext
       cases oex with
       | none => exact ⟨hresp, hc⟩
-      | some ex => exact ⟨hresp, goodCache_put hc rfl (hext ex rfl)⟩
+      | some ex => exact ⟨hresp, goodCache_put hc rfl (filterRecent_good env D req.step hreq.1 ex (hext ex rfl))⟩
   | none =>
     simp only
     have hnone : ((lowerSteps req.step).filter fun s => req.start.tmod s = 0).findSome?
@@ -1476,46 +1500,49 @@ theorem doReq_spec (g : Bool) (D : Down) (hD : D.Sorted) (splitMs : Int) (c : Ca
       exact cacheGet_none_of_step hc (by simp; omega)
     rw [hnone]
     simp only
-    refine ⟨trivial, goodCache_put hc rfl ?_⟩
-    intro e he
-    simp at he; subst he
-    obtain ⟨h1, h2, h3, h4, h5⟩ := hreq
-    exact ⟨h2, h3, h4, h5, evalD_exact D hD req.step req.start req.stop h1 h4⟩
+    by_cases hns : env.noStore req = true
+    · simp only [hns, if_true]; exact ⟨trivial, hc⟩
+    · simp only [hns, Bool.false_eq_true, if_false]
+      refine ⟨trivial, goodCache_put hc rfl (filterRecent_good env D req.step hreq.1 _ ?_)⟩
+      intro e he
+      simp at he; subst he
+      obtain ⟨h1, h2, _, h4, h5⟩ := hreq
+      exact ⟨h2, h4, h5, evalD_exact D hD req.step req.start req.stop h1 h4⟩
 
 section
 open Thanos.Split
 
 
 /-- the fold of `frontend` over the sub-requests of a split -/
-def foldParts (cfg : Cfg) (D : Down) (splitMs step : Int) (parts : List (Int × Int)) (init : List Matrix × Cache) :
+def foldParts (cfg : Cfg) (env : Env) (D : Down) (splitMs step : Int) (parts : List (Int × Int)) (init : List Matrix × Cache) :
     List Matrix × Cache :=
   parts.foldl (fun (acc : List Matrix × Cache) p =>
-    (acc.1 ++ [(doReq cfg D splitMs acc.2 ⟨p.1, p.2, step⟩).1], (doReq cfg D splitMs acc.2 ⟨p.1, p.2, step⟩).2)) init
+    (acc.1 ++ [(doReq cfg env D splitMs acc.2 ⟨p.1, p.2, step⟩).1], (doReq cfg env D splitMs acc.2 ⟨p.1, p.2, step⟩).2)) init
 
-theorem foldParts_spec (g : Bool) (D : Down) (hD : D.Sorted) (splitMs step : Int) :
+theorem foldParts_spec (g : Bool) (env : Env) (D : Down) (hD : D.Sorted) (splitMs step : Int) :
     ∀ (parts : List (Int × Int)) (resps : List Matrix) (c : Cache), GoodCache D step c →
       (∀ p ∈ parts, Aligned ⟨p.1, p.2, step⟩) →
-      (foldParts ⟨true, g⟩ D splitMs step parts (resps, c)).1 = resps ++ parts.map (fun p => evalD D p.1 p.2 step) ∧
-      GoodCache D step (foldParts ⟨true, g⟩ D splitMs step parts (resps, c)).2
+      (foldParts ⟨true, g⟩ env D splitMs step parts (resps, c)).1 = resps ++ parts.map (fun p => evalD D p.1 p.2 step) ∧
+      GoodCache D step (foldParts ⟨true, g⟩ env D splitMs step parts (resps, c)).2
   | [], resps, c, hc, _ => by simp [foldParts, hc]
   | p :: parts, resps, c, hc, hal => by
     have hp := hal p (by simp)
-    obtain ⟨h1, h2⟩ := doReq_spec g D hD splitMs c ⟨p.1, p.2, step⟩ hp hc
+    obtain ⟨h1, h2⟩ := doReq_spec g env D hD splitMs c ⟨p.1, p.2, step⟩ hp hc
     simp only at h1 h2
-    have ih := foldParts_spec g D hD splitMs step parts (resps ++ [(doReq ⟨true, g⟩ D splitMs c ⟨p.1, p.2, step⟩).1])
-      (doReq ⟨true, g⟩ D splitMs c ⟨p.1, p.2, step⟩).2 h2 (fun q hq => hal q (List.mem_cons_of_mem _ hq))
+    have ih := foldParts_spec g env D hD splitMs step parts (resps ++ [(doReq ⟨true, g⟩ env D splitMs c ⟨p.1, p.2, step⟩).1])
+      (doReq ⟨true, g⟩ env D splitMs c ⟨p.1, p.2, step⟩).2 h2 (fun q hq => hal q (List.mem_cons_of_mem _ hq))
     unfold foldParts at ih ⊢
     simp only [List.foldl_cons]
     constructor
     · rw [ih.1, h1]; simp
     · exact ih.2
 
-theorem frontend_eq (cfg : Cfg) (D : Down) (splitMs : Int) (c : Cache) (req : Req) (hs : req.step ≠ 0) :
-    frontend cfg D true splitMs c req =
+theorem frontend_eq (cfg : Cfg) (env : Env) (D : Down) (splitMs : Int) (c : Cache) (req : Req) (hs : req.step ≠ 0) :
+    frontend cfg env D true splitMs c req =
       match Split.split (req.start.tdiv req.step * req.step) (req.stop.tdiv req.step * req.step) req.step splitMs with
       | .ok parts =>
-        some (mergeResponse cfg.minAll (foldParts cfg D splitMs req.step parts ([], c)).1,
-              (foldParts cfg D splitMs req.step parts ([], c)).2)
+        some (mergeResponse cfg.minAll (foldParts cfg env D splitMs req.step parts ([], c)).1,
+              (foldParts cfg env D splitMs req.step parts ([], c)).2)
       | _ => none := by
   unfold frontend foldParts
   simp only [hs, if_false, if_true]
@@ -1528,15 +1555,15 @@ theorem frontend_eq (cfg : Cfg) (D : Down) (splitMs : Int) (c : Cache) (req : Re
 /-- **one request through the whole chain** (StepAlign → SplitByInterval → results cache →
     MergeResponse) over a cache whose keys are all for the request's step: the answer is the
     direct answer to the step-aligned request, and the cache stays good -/
-theorem frontend_spec (g : Bool) (D : Down) (hD : D.Sorted) (splitMs : Int) (hsp : 0 < splitMs) (c : Cache) (req : Req)
+theorem frontend_spec (g : Bool) (env : Env) (D : Down) (hD : D.Sorted) (splitMs : Int) (hsp : 0 < splitMs) (c : Cache) (req : Req)
     (hstep : 0 < req.step) (h0 : 0 ≤ req.start) (hle : req.start ≤ req.stop) (hc : GoodCache D req.step c) :
-    ∃ c', frontend ⟨true, g⟩ D true splitMs c req =
+    ∃ c', frontend ⟨true, g⟩ env D true splitMs c req =
         some (evalD D (req.start / req.step * req.step) (req.stop / req.step * req.step) req.step, c') ∧
       GoodCache D req.step c' := by
   have hne : req.step ≠ 0 := by omega
   have hs1 : req.start.tdiv req.step = req.start / req.step := Int.tdiv_eq_ediv_of_nonneg h0
   have hs2 : req.stop.tdiv req.step = req.stop / req.step := Int.tdiv_eq_ediv_of_nonneg (by omega)
-  rw [frontend_eq _ _ _ _ _ hne, hs1, hs2]
+  rw [frontend_eq _ _ _ _ _ _ hne, hs1, hs2]
   generalize hS : req.start / req.step * req.step = s
   generalize hE : req.stop / req.step * req.step = e
   have hsm : s % req.step = 0 := by rw [← hS]; simp
@@ -1561,8 +1588,8 @@ theorem frontend_spec (g : Bool) (D : Down) (hD : D.Sorted) (splitMs : Int) (hsp
         rw [this, Int.add_emod, Int.emod_eq_zero_of_dvd a5, hp1]; simp
       · rw [a5]; exact hem
     exact ⟨hstep, by simp; omega, a3, hp1, hp2⟩
-  obtain ⟨hresp, hcache⟩ := foldParts_spec g D hD splitMs req.step parts [] c hc hal
-  refine ⟨(foldParts ⟨true, g⟩ D splitMs req.step parts ([], c)).2, ?_, hcache⟩
+  obtain ⟨hresp, hcache⟩ := foldParts_spec g env D hD splitMs req.step parts [] c hc hal
+  refine ⟨(foldParts ⟨true, g⟩ env D splitMs req.step parts ([], c)).2, ?_, hcache⟩
   congr 2
   rw [hresp, List.nil_append]
   -- the merged sub-responses are exact for [s, e]
@@ -1674,7 +1701,7 @@ theorem partitionLoop_spec_m (D : Down) (req : Req) (hreq : Aligned req) (s' : I
   | [], _, start, rs, ps, hinv => ⟨start, rs, ps, rfl, hinv⟩
   | e :: es, hgood, start, rs, ps, hinv => by
     have hes : ∀ e' ∈ es, GoodExtent D s' e' := fun e' he' => hgood e' (List.mem_cons_of_mem _ he')
-    obtain ⟨he0, hele, hea, heb, hex⟩ := hgood e (by simp)
+    obtain ⟨he0, hea, heb, hex⟩ := hgood e (by simp)
     obtain ⟨hstep, hr0, hrle, hra, hrb⟩ := hreq
     unfold partitionLoop
     by_cases h1 : e.stop < start ∨ e.start > req.stop
@@ -1832,9 +1859,9 @@ theorem partition_spec_m (D : Down) (hD : D.Sorted) (req : Req) (hreq : Aligned 
 
 /-- **lower-step reuse answers exactly** (after the grid repair): a request answered from extents
     cached under a smaller common step that divides its step gets the direct answer -/
-theorem handleHit_resp_m (D : Down) (hD : D.Sorted) (req : Req) (hreq : Aligned req) (s' : Int) (hs' : 0 < s')
+theorem handleHit_resp_m (env : Env) (D : Down) (hD : D.Sorted) (req : Req) (hreq : Aligned req) (s' : Int) (hs' : 0 < s')
     (hdvd : req.step % s' = 0) (exts : List Extent) (hgood : ∀ e ∈ exts, GoodExtent D s' e) :
-    (handleHit ⟨true, true⟩ D req exts true).1 = evalD D req.start req.stop req.step := by
+    (handleHit ⟨true, true⟩ env D req exts true).1 = evalD D req.start req.stop req.step := by
   obtain ⟨rs, ps, hpart, hex, hin, hcov⟩ := partition_spec_m D hD req hreq s' hs' hdvd exts hgood
   have hmerge := merge_exact hex hin hcov
   have hdirect := evalD_exact D hD req.step req.start req.stop hreq.1 hreq.2.2.2.1
@@ -1881,26 +1908,29 @@ theorem lowerSteps_spec {step s : Int} (h : s ∈ lowerSteps step) : 0 < s ∧ s
     exact ⟨hpos, by omega, by omega⟩
   · simp at h
 
-/-- **C42_step for one (sub-)request, any cache**: primary hit, lower-step reuse, or miss -/
-theorem doReq_spec_m (D : Down) (hD : D.Sorted) (splitMs : Int) (c : Cache) (req : Req) (hreq : Aligned req)
+/-- **C42_step for one (sub-)request, any cache, any environment**: fresh-zone bypass, primary hit,
+    lower-step reuse, or miss; with or without write-back -/
+theorem doReq_spec_m (env : Env) (D : Down) (hD : D.Sorted) (splitMs : Int) (c : Cache) (req : Req) (hreq : Aligned req)
     (hc : GoodCacheM D c) :
-    (doReq ⟨true, true⟩ D splitMs c req).1 = evalD D req.start req.stop req.step ∧
-    GoodCacheM D (doReq ⟨true, true⟩ D splitMs c req).2 := by
+    (doReq ⟨true, true⟩ env D splitMs c req).1 = evalD D req.start req.stop req.step ∧
+    GoodCacheM D (doReq ⟨true, true⟩ env D splitMs c req).2 := by
   unfold doReq
-  simp only
+  by_cases hfresh : req.start > env.mct
+  · simp only [hfresh, if_true]; exact ⟨trivial, hc⟩
+  simp only [hfresh, if_false]
   cases hget : cacheGet c ⟨req.step, splitMs, req.start.tdiv splitMs⟩ with
   | some exts =>
     have hgood : ∀ e ∈ exts, GoodExtent D req.step e := (hc _ (cacheGet_mem hget)).2
-    have hresp := handleHit_resp true D hD req hreq exts hgood
-    have hext := handleHit_extents true D hD req hreq exts hgood
+    have hresp := handleHit_resp true env D hD req hreq exts hgood
+    have hext := handleHit_extents true env D hD req hreq exts hgood
     simp only
-    cases hh : handleHit ⟨true, true⟩ D req exts false with
+    cases hh : handleHit ⟨true, true⟩ env D req exts false with
     | mk resp oex =>
       rw [hh] at hresp hext
       simp only at hresp hext
       cases oex with
       | none => exact ⟨hresp, hc⟩
-      | some ex => exact ⟨hresp, goodCacheM_put hc hreq.1 (hext ex rfl)⟩
+      | some ex => exact ⟨hresp, goodCacheM_put hc hreq.1 (filterRecent_good env D req.step hreq.1 ex (hext ex rfl))⟩
   | none =>
     simp only
     cases halt : ((lowerSteps req.step).filter fun s => req.start.tmod s = 0).findSome?
@@ -1910,42 +1940,45 @@ theorem doReq_spec_m (D : Down) (hD : D.Sorted) (splitMs : Int) (c : Cache) (req
       obtain ⟨s, hs, hget'⟩ := List.exists_of_findSome?_eq_some halt
       obtain ⟨hs1, hs2, hs3⟩ := lowerSteps_spec (List.mem_filter.mp hs).1
       have hgood : ∀ e ∈ exts, GoodExtent D s e := (hc _ (cacheGet_mem hget')).2
-      exact ⟨handleHit_resp_m D hD req hreq s hs1 hs3 exts hgood, hc⟩
+      exact ⟨handleHit_resp_m env D hD req hreq s hs1 hs3 exts hgood, hc⟩
     | none =>
       simp only
-      refine ⟨trivial, goodCacheM_put hc hreq.1 ?_⟩
-      intro e he
-      simp at he; subst he
-      obtain ⟨h1, h2, h3, h4, h5⟩ := hreq
-      exact ⟨h2, h3, h4, h5, evalD_exact D hD req.step req.start req.stop h1 h4⟩
+      by_cases hns : env.noStore req = true
+      · simp only [hns, if_true]; exact ⟨trivial, hc⟩
+      · simp only [hns, Bool.false_eq_true, if_false]
+        refine ⟨trivial, goodCacheM_put hc hreq.1 (filterRecent_good env D req.step hreq.1 _ ?_)⟩
+        intro e he
+        simp at he; subst he
+        obtain ⟨h1, h2, _, h4, h5⟩ := hreq
+        exact ⟨h2, h4, h5, evalD_exact D hD req.step req.start req.stop h1 h4⟩
 
-theorem foldParts_spec_m (D : Down) (hD : D.Sorted) (splitMs step : Int) :
+theorem foldParts_spec_m (env : Env) (D : Down) (hD : D.Sorted) (splitMs step : Int) :
     ∀ (parts : List (Int × Int)) (resps : List Matrix) (c : Cache), GoodCacheM D c →
       (∀ p ∈ parts, Aligned ⟨p.1, p.2, step⟩) →
-      (foldParts ⟨true, true⟩ D splitMs step parts (resps, c)).1 = resps ++ parts.map (fun p => evalD D p.1 p.2 step) ∧
-      GoodCacheM D (foldParts ⟨true, true⟩ D splitMs step parts (resps, c)).2
+      (foldParts ⟨true, true⟩ env D splitMs step parts (resps, c)).1 = resps ++ parts.map (fun p => evalD D p.1 p.2 step) ∧
+      GoodCacheM D (foldParts ⟨true, true⟩ env D splitMs step parts (resps, c)).2
   | [], resps, c, hc, _ => by simp [foldParts, hc]
   | p :: parts, resps, c, hc, hal => by
     have hp := hal p (by simp)
-    obtain ⟨h1, h2⟩ := doReq_spec_m D hD splitMs c ⟨p.1, p.2, step⟩ hp hc
+    obtain ⟨h1, h2⟩ := doReq_spec_m env D hD splitMs c ⟨p.1, p.2, step⟩ hp hc
     simp only at h1 h2
-    have ih := foldParts_spec_m D hD splitMs step parts (resps ++ [(doReq ⟨true, true⟩ D splitMs c ⟨p.1, p.2, step⟩).1])
-      (doReq ⟨true, true⟩ D splitMs c ⟨p.1, p.2, step⟩).2 h2 (fun q hq => hal q (List.mem_cons_of_mem _ hq))
+    have ih := foldParts_spec_m env D hD splitMs step parts (resps ++ [(doReq ⟨true, true⟩ env D splitMs c ⟨p.1, p.2, step⟩).1])
+      (doReq ⟨true, true⟩ env D splitMs c ⟨p.1, p.2, step⟩).2 h2 (fun q hq => hal q (List.mem_cons_of_mem _ hq))
     unfold foldParts at ih ⊢
     simp only [List.foldl_cons]
     constructor
     · rw [ih.1, h1]; simp
     · exact ih.2
 
-theorem frontend_spec_m (D : Down) (hD : D.Sorted) (splitMs : Int) (hsp : 0 < splitMs) (c : Cache) (req : Req)
+theorem frontend_spec_m (env : Env) (D : Down) (hD : D.Sorted) (splitMs : Int) (hsp : 0 < splitMs) (c : Cache) (req : Req)
     (hstep : 0 < req.step) (h0 : 0 ≤ req.start) (hle : req.start ≤ req.stop) (hc : GoodCacheM D c) :
-    ∃ c', frontend ⟨true, true⟩ D true splitMs c req =
+    ∃ c', frontend ⟨true, true⟩ env D true splitMs c req =
         some (evalD D (req.start / req.step * req.step) (req.stop / req.step * req.step) req.step, c') ∧
       GoodCacheM D c' := by
   have hne : req.step ≠ 0 := by omega
   have hs1 : req.start.tdiv req.step = req.start / req.step := Int.tdiv_eq_ediv_of_nonneg h0
   have hs2 : req.stop.tdiv req.step = req.stop / req.step := Int.tdiv_eq_ediv_of_nonneg (by omega)
-  rw [frontend_eq _ _ _ _ _ hne, hs1, hs2]
+  rw [frontend_eq _ _ _ _ _ _ hne, hs1, hs2]
   generalize hS : req.start / req.step * req.step = s
   generalize hE : req.stop / req.step * req.step = e
   have hsm : s % req.step = 0 := by rw [← hS]; simp
@@ -1970,8 +2003,8 @@ theorem frontend_spec_m (D : Down) (hD : D.Sorted) (splitMs : Int) (hsp : 0 < sp
         rw [this, Int.add_emod, Int.emod_eq_zero_of_dvd a5, hp1]; simp
       · rw [a5]; exact hem
     exact ⟨hstep, by simp; omega, a3, hp1, hp2⟩
-  obtain ⟨hresp, hcache⟩ := foldParts_spec_m D hD splitMs req.step parts [] c hc hal
-  refine ⟨(foldParts ⟨true, true⟩ D splitMs req.step parts ([], c)).2, ?_, hcache⟩
+  obtain ⟨hresp, hcache⟩ := foldParts_spec_m env D hD splitMs req.step parts [] c hc hal
+  refine ⟨(foldParts ⟨true, true⟩ env D splitMs req.step parts ([], c)).2, ?_, hcache⟩
   congr 2
   rw [hresp, List.nil_append]
   let ps : List Piece := parts.map fun p => ⟨p.1, p.2, evalD D p.1 p.2 req.step⟩
@@ -1998,18 +2031,39 @@ theorem frontend_spec_m (D : Down) (hD : D.Sorted) (splitMs : Int) (hsp : 0 < sp
       exact ⟨⟨q.1, q.2, evalD D q.1 q.2 req.step⟩, List.mem_map.mpr ⟨q, hq, rfl⟩, this.1, this.2.1⟩
   exact hex.unique (evalD_exact D hD req.step s e hstep hsm)
 
-theorem history_spec_m (D : Down) (hD : D.Sorted) (splitMs : Int) (hsp : 0 < splitMs) :
-    ∀ (reqs : List Req) (c : Cache), GoodCacheM D c → (∀ r ∈ reqs, 0 < r.step ∧ 0 ≤ r.start ∧ r.start ≤ r.stop) →
-      history ⟨true, true⟩ D true splitMs c reqs =
-        reqs.map fun r => some (evalD D (r.start / r.step * r.step) (r.stop / r.step * r.step) r.step)
+theorem goodCacheM_nil (D : Down) : GoodCacheM D [] := by intro kv hkv; simp at hkv
+
+/-- **the history invariant**: whatever the environments of the moment (freshness cut-offs,
+    uncacheable responses) and whenever the cache loses its entries -/
+theorem historyE_spec (D : Down) (hD : D.Sorted) (splitMs : Int) (hsp : 0 < splitMs) :
+    ∀ (steps : List Step) (c : Cache), GoodCacheM D c →
+      (∀ s ∈ steps, 0 < s.req.step ∧ 0 ≤ s.req.start ∧ s.req.start ≤ s.req.stop) →
+      historyE ⟨true, true⟩ D true splitMs c steps =
+        steps.map fun s => some (evalD D (s.req.start / s.req.step * s.req.step) (s.req.stop / s.req.step * s.req.step) s.req.step)
   | [], _, _, _ => rfl
-  | r :: rs, c, hc, hr => by
-    obtain ⟨h1, h2, h3⟩ := hr r (by simp)
-    obtain ⟨c', hf, hc'⟩ := frontend_spec_m D hD splitMs hsp c r h1 h2 h3 hc
-    unfold history
+  | s :: rs, c, hc, hr => by
+    obtain ⟨h1, h2, h3⟩ := hr s (by simp)
+    have hc0 : GoodCacheM D (if s.flush then [] else c) := by
+      cases s.flush
+      · simpa using hc
+      · simpa using goodCacheM_nil D
+    obtain ⟨c', hf, hc'⟩ := frontend_spec_m s.env D hD splitMs hsp _ s.req h1 h2 h3 hc0
+    unfold historyE
+    simp only
     rw [hf]
     simp only [List.map_cons]
-    rw [history_spec_m D hD splitMs hsp rs c' hc' (fun r' hr' => hr r' (List.mem_cons_of_mem _ hr'))]
+    rw [historyE_spec D hD splitMs hsp rs c' hc' (fun r' hr' => hr r' (List.mem_cons_of_mem _ hr'))]
+
+theorem history_spec_m (D : Down) (hD : D.Sorted) (splitMs : Int) (hsp : 0 < splitMs) (reqs : List Req) (c : Cache)
+    (hc : GoodCacheM D c) (hr : ∀ r ∈ reqs, 0 < r.step ∧ 0 ≤ r.start ∧ r.start ≤ r.stop) :
+    history ⟨true, true⟩ D true splitMs c reqs =
+      reqs.map fun r => some (evalD D (r.start / r.step * r.step) (r.stop / r.step * r.step) r.step) := by
+  unfold history
+  rw [historyE_spec D hD splitMs hsp _ c hc (by
+    intro s hs
+    obtain ⟨r, hr', rfl⟩ := List.mem_map.mp hs
+    exact hr r hr')]
+  simp [List.map_map, Function.comp_def]
 
 end
 
